@@ -745,11 +745,29 @@ def _next_permutation_anatomy(col, crate):
     from ..absint import strip_mem as _sm
 
     def at(idx, t):
-        return _sm(_cc(t)) == _sm(_cc(("ref", ("index", datap, idx))))
+        if _sm(_cc(t)) == _sm(_cc(("ref", ("index", datap, idx)))):
+            return True
+        # the same element through another index frame (a split_at_mut half: tail[k] is data[i + k])
+        t_ = _sm(_cc(t))
+        return isinstance(t_, tuple) and len(t_) == 2 and t_[0] == "ref" and isinstance(t_[1], tuple) and t_[1][0] == "index" and t_[1][1] == _sm(_cc(datap)) and util.lin_equal(t_[1][2], _sm(_cc(idx)))
+
+    def tail_from(tail, i_el):
+        """&mut data[i..] in either spelling (RangeFrom index, or the second half of split_at_mut(i))"""
+        if not (tail[0] == "ref" and isinstance(tail[1], tuple)):
+            return False
+        x = tail[1]
+        if x[0] == "range" and x[1] == datap and x[2][0] == "agg" and x[2][1][1].endswith("RangeFrom") and len(x[2][2]) == 1:
+            return util.lin_equal(x[2][2][0], i_el)
+        if x[0] == "slicefrom" and x[1] == datap:
+            return util.lin_equal(x[2], i_el)
+        return False
 
 
-    def less(facts, xi, yi):
-        """the facts say data[xi] < data[yi] (strictly), in any of the four spellings of the comparison"""
+    def less(facts, xi, yi, neg=False):
+        """the facts say data[xi] < data[yi] (strictly), in any of the four spellings of the comparison
+        (neg: they say that it does NOT hold)"""
+        if neg:
+            facts = [(f[0], f[1], 1 - f[2]) if f[0] == "eq" and f[2] in (0, 1) else f for f in facts]
         for f in facts:
             t = f[1]
             if not (f[0] == "eq" and isinstance(t, tuple) and t and t[0] == "call" and len(t[2]) >= 2):
@@ -768,7 +786,8 @@ def _next_permutation_anatomy(col, crate):
                 return True
         return False
 
-    ok_wrap = ok_swap = ok_scan = ok_outer = False
+    ok_wrap = False
+    v_swap, v_scan, v_outer = [], [], []   # one verdict per stepping path: all of them must hold
     why = []
     for st in I.final_states:
         evs = [e for e in st.event_list() if e.kind == "call"]
@@ -786,39 +805,56 @@ def _next_permutation_anatomy(col, crate):
             continue
         if ret != mk_int(1) or len(sw) != 1 or len(rv) != 1:
             why.append("a stepping path must do exactly one swap and one tail reversal and return true")
+            v_swap.append(False)
             continue
-        if len(sw[0].args) < 3:
-            why.append("the exchange is not the slice swap(i, j) of two positions (%s)" % str(sw[0])[:120])
-            continue
-        i_t = sw[0].args[1]
-        j_t = sw[0].args[2]
+        if len(sw[0].args) >= 3:
+            i_t = sw[0].args[1]
+            j_t = sw[0].args[2]
+        else:
+            # mem::swap(&mut data[p], &mut data[q]) of two elements of the slice (through split_at_mut halves)
+            a_, b_ = sw[0].args[0], sw[0].args[1]
+            if not (a_[0] == "ref" and b_[0] == "ref" and a_[1][0] == "index" and b_[1][0] == "index" and a_[1][1] == datap and b_[1][1] == datap):
+                why.append("the exchange is not a swap of two positions of the slice (%s)" % str(sw[0])[:120])
+                v_swap.append(False)
+                continue
+            i_t, j_t = a_[1][2], b_[1][2]
+        # the partner may be written in the frame of the tail: i + k for the scan variable k
+        off_frame = None
+        if j_t[0] == "bin" and j_t[1] == "Add" and j_t[3][0] == "phi" and j_t[2][0] in ("elem", "proj"):
+            off_frame = (j_t[2], j_t[3])
         # pivot index is i-1 for the loop element i of (1..len).rev()
         piv_ok = i_t[0] == "bin" and i_t[1] == "Sub" and i_t[3] == mk_int(1) and i_t[2][0] == "elem"
         by_find = (not piv_ok) and i_t[0] == "bin" and i_t[1] == "Sub" and i_t[3] == mk_int(1) and found_by_rev_find(i_t[2], evs)
         if by_find:
             i_el = i_t[2]
             ok_outer = True
+            v_outer.append(bool(ok_outer))
             tail = rv[0].args[0]
-            tail_ok = tail[0] == "ref" and tail[1][0] == "range" and tail[1][1] == datap and tail[1][2][0] == "agg" and tail[1][2][1][1].endswith("RangeFrom") and len(tail[1][2][2]) == 1 and util.lin_equal(tail[1][2][2][0], i_el)
+            tail_ok = tail_from(tail, i_el)
             ok_swap = tail_ok and evs.index(sw[0]) < evs.index(rv[0])
+            v_swap.append(bool(ok_swap))
             if not ok_swap:
                 why.append("swap, then reverse data[i..] expected")
         elif not piv_ok:
             why.append("swap's first index is %s, expected i-1" % tstr(i_t))
+            v_outer.append(False)
             continue
         if not by_find:
           i_el = i_t[2]
           ok_outer = i_el[2] == mk_int(1) and i_el[3] == LEN and any(isinstance(v, tuple) and v and v[0] == "rangeiter" and v[3] == "rev" for v in st.env.values())
+          v_outer.append(bool(ok_outer))
         if not by_find:
             asc = less(st.facts, i_t, i_el)
             tail = rv[0].args[0]
-            tail_ok = tail[0] == "ref" and tail[1][0] == "range" and tail[1][1] == datap and tail[1][2][0] == "agg" and tail[1][2][1][1].endswith("RangeFrom") and len(tail[1][2][2]) == 1 and util.lin_equal(tail[1][2][2][0], i_el)
+            tail_ok = tail_from(tail, i_el)
             ok_swap = asc and tail_ok and evs.index(sw[0]) < evs.index(rv[0])
+            v_swap.append(bool(ok_swap))
             if not ok_swap:
                 why.append("ascent test data[i-1] < data[i], swap, then reverse data[i..] expected")
         # the partner: loop variable of a forward scan from i while data[j+1] > data[i-1]
-        if j_t[0] == "phi":
-            head, jl = j_t[1], j_t[2]
+        if j_t[0] == "phi" or (off_frame is not None and util.lin_equal(off_frame[0], i_el)):
+            kphi = j_t if j_t[0] == "phi" else off_frame[1]
+            head, jl = kphi[1], kphi[2]
             # the scan may sit in an inlined private helper: its loop belongs to that sub-analysis
             L, work = I, [I]
             while work:
@@ -829,22 +865,44 @@ def _next_permutation_anatomy(col, crate):
                     break
                 work.extend(getattr(x_, "inlined_subs", []))
             ent = [en.get(jl) for en in L.loop_entry.get(head, [])]
-            scan_from_i = bool(ent) and all(x is not None and util.lin_equal(x, i_el) for x in ent)
+            start = (lambda x: x) if j_t[0] == "phi" else (lambda x: ("bin", "Add", off_frame[0], x))
+            scan_from_i = bool(ent) and all(x is not None and util.lin_equal(start(x), i_el) for x in ent)
             step_ok = False
             for bs in L.backedge_states.get(head, []):
                 nj = bs.env.get(jl)
                 gt = less(bs.facts, i_t, ("bin", "Add", j_t, mk_int(1)))
                 lt_rev = False
                 inb = any(f[0] == "eq" and f[2] == 1 and _sm(_cc(f[1])) == _sm(_cc(("bin", "Lt", ("bin", "Add", j_t, mk_int(1)), LEN))) for f in bs.facts)
-                step_ok = nj == ("bin", "Add", j_t, mk_int(1)) and (gt or lt_rev) and inb
+                if not inb and j_t[0] != "phi":
+                    # k + 1 < len(data[i..]) is j + 1 < len for j = i + k
+                    inb = any(f[0] == "eq" and f[2] == 1 and isinstance(f[1], tuple) and f[1][0] == "bin" and f[1][1] == "Lt" and f[1][2] == ("bin", "Add", kphi, mk_int(1)) and isinstance(f[1][3], tuple) and f[1][3][0] == "len"
+                              and any(x[0] == "slicefrom" and x[1] == datap and util.lin_equal(x[2], i_el) for x in subterms(f[1][3])) for f in bs.facts)
+                step_ok = nj == ("bin", "Add", kphi, mk_int(1)) and (gt or lt_rev) and inb
+            # ... and stops exactly there: on this (stepping) path the scan was left because j+1 == len or because
+            # data[j+1] is not greater than the pivot (an index bounds check states j+1 < len too, so the loop test is
+            # identified by its negation at the exit)
+            nxt = ("bin", "Add", j_t, mk_int(1))
+
+            def bound_false(f):
+                if not (f[0] == "eq" and f[2] == 0 and isinstance(f[1], tuple) and f[1][0] == "bin" and f[1][1] == "Lt"):
+                    return False
+                if _sm(_cc(f[1])) == _sm(_cc(("bin", "Lt", nxt, LEN))):
+                    return True
+                return j_t[0] != "phi" and f[1][2] == ("bin", "Add", kphi, mk_int(1)) and isinstance(f[1][3], tuple) and f[1][3][0] == "len" and any(x[0] == "slicefrom" and x[1] == datap and util.lin_equal(x[2], i_el) for x in subterms(f[1][3]))
+
+            exit_ok = any(bound_false(f) for f in st.facts) or less(st.facts, i_t, nxt, neg=True)
+            step_ok = step_ok and exit_ok
             ok_scan = scan_from_i and step_ok
+            v_scan.append(bool(ok_scan))
             if not ok_scan:
                 why.append("the partner scan must start at i and advance while j+1 < len && data[j+1] > data[i-1] (strictly)")
         else:
             # accepted alternative: rposition from the right with a strict comparison against the pivot
             rp = [e for e in evs if e.extra.get("name") == "rposition"]
             ok_scan = False
+            v_scan.append(bool(ok_scan))
             why.append("the swap partner %s is not found by the forward scan `while j+1 < len && data[j+1] > data[i-1]`: with repeated elements a different choice (e.g. the leftmost of equal candidates) leaves the tail unsorted and skips arrangements" % tstr(j_t)[:120])
+    ok_swap, ok_scan, ok_outer = (bool(v) and all(v) for v in (v_swap, v_scan, v_outer))
     key = "%s|anatomy" % fk(b)
     if ok_outer:
         col.ok("I7", b.loc(), key + "|outer", "i over (1..len).rev(): rightmost ascent first")
